@@ -21,7 +21,7 @@ Local Open Scope Z_scope.
 
 (** * Storage *)
 
-Definition store := gmap bytes bytes.
+Notation store := (gmap bytes bytes) (only parsing).
 
 (** [storage.Find(ctx, p, None)]: the (key, value) pairs whose key has prefix
     [p], ascending in the byte order of the keys (snapshot: it is a pure
